@@ -29,7 +29,7 @@ READS = [(50, 2), (100, 5), (100, 4), (150, 5), (250, 10)]
 
 
 SCENARIOS = ["random", "short_reads_clustered_indel", "ambiguous_mnp", "random", "edge_variant", "structural",
-             "repeat_insertions", "multiallelic_het", "close_pair"]
+             "repeat_insertions", "multiallelic_het", "close_pair", "silent_mnp"]
 CLOSE = ["snp_after_ins", "snp_before_del", "snp_after_del", "ins_ins", "snp_after_ins", "snp_before_del",
          "snp_after_del", "snp_snp", "snp_ins_anchor", "del_del", "ins_del", "del_ins"]
 # not used here: "snp_under_del" and "mnp_inner_snp" (world.py) - the unchanged tree already mis-calls most such
@@ -56,6 +56,9 @@ def gen_plan(rng, tier, i, seed):
         o.update(ambiguous=rng.choice([True, "mnp", "mnp"]), kinds=["mnp", "mnp", "snp", "ins", "del"], gene_len=420)
     elif scen == "edge_variant":
         o.update(edge_variant=rng.choice(["last", "first", "both"]))
+    elif scen == "silent_mnp":
+        # multi-nucleotide substitutions that are silent variants of sub-alleles
+        o.update(silent_mnp=True, kinds=["mnp", "mnp", "snp", "mnp", "snp"], n_variants=8)
     elif scen == "repeat_insertions":
         L, step = rng.choice([(100, 5), (150, 5)])
         o.update(repeat_ins=True, gene_len=rng.choice([480, 600]))
@@ -79,6 +82,12 @@ def gen_plan(rng, tier, i, seed):
         a, b, ab, ref = amb
         units = rng.choice([[{"type": "normal", "allele": a}, {"type": "normal", "allele": b}],
                             [{"type": "normal", "allele": ab}, {"type": "normal", "allele": ref}]])
+    elif scen == "silent_mnp":
+        sm = [a["name"] for a in normal
+              if any(g["variants"][v]["kind"] == "mnp" and not g["variants"][v]["func"] for v in a["vars"])]
+        if sm:
+            units = [{"type": "normal", "allele": rng.choice(sm)},
+                     {"type": "normal", "allele": rng.choice(sm + [a["name"] for a in normal])}]
     elif scen == "short_reads_clustered_indel":
         # the same haplotype on every copy, preferably one that carries an insertion / deletion
         indel = [a["name"] for a in normal if any(g["variants"][v]["kind"] in ("ins", "del") for v in a["vars"])]
